@@ -7,6 +7,11 @@ C->S: the function is a TABLE function of the coordinate it receives (tag k for 
       any other coordinate), so the record of a call shows which points reached the function, in which order, and where
       every returned entry ended up; Trace_Decorators.tla judges every record, also for seeded random larger instances.
 
+Histories: the caller's grid object is machine state.  Decorators.tla's second machine (SpecH) enumerates sequences of decorated
+calls on ONE grid object (relocating call first, then any); the driver builds that object once, remembers the coordinates it was
+built with, makes the calls on it and judges every call against the BUILT coordinates; after every call (single calls too) the
+object is read again and the clause `input-grid-unchanged` demands position k still holds built coordinate k.
+
 Lattice: coordinates, pixel scales, origins and profile centres are integer multiples of a unit tau (tau = 1/(4m) where a
 radial minimum of 2.5 / 0.75 is involved, so that the comparison |p| < r_min is exact); points the code computes (relocated
 coordinates, projected lines) are recorded in fixed point round(p / tau * S) and judged through the defining relation with the
@@ -38,7 +43,13 @@ MC_CFG = """CONSTANTS
   TinyEps <- MCTinyEps
   TinyDirs <- MCTinyDirs
   TinyShapes <- MCTinyShapes
+  HistShapes <- MCNone
+  HistLens <- MCNone
+  HistGeoms <- MCNone
+  HistLen = 0
 SPECIFICATION Spec
+INVARIANT GridAsBuilt
+PROPERTY GridNeverWritten
 INVARIANT DomainAndKinds
 INVARIANT PairingSlimNative
 INVARIANT ListElementwise
@@ -49,6 +60,28 @@ INVARIANT PostconditionIsTight
 INVARIANT TinyJudgedByDirection
 INVARIANT LineAnyDirection
 INVARIANT Line1DAnyDirection
+"""
+
+MC_H_CFG = """CONSTANTS
+  Shapes <- MCNone
+  MidShapes <- MCNone
+  Lens <- MCNone
+  Geoms <- MCNone
+  PGeoms <- MCNone
+  Depths <- MCNone
+  Lattice <- MCNone
+  TinyEps <- MCNone
+  TinyDirs <- MCNone
+  TinyShapes <- MCNone
+  HistShapes <- MCHistShapes
+  HistLens <- MCHistLens
+  HistGeoms <- MCHistGeoms
+  HistLen <- MCHistLen
+SPECIFICATION SpecH
+INVARIANT GridAsBuilt
+INVARIANT HistorySeesBuiltGrid
+INVARIANT HistoryShape
+PROPERTY GridNeverWritten
 """
 
 TRACE_CFG = """CONSTANTS
@@ -62,6 +95,10 @@ TRACE_CFG = """CONSTANTS
   TinyEps = {}
   TinyDirs = {}
   TinyShapes = {}
+  HistShapes = {}
+  HistLens = {}
+  HistGeoms = {}
+  HistLen = 0
 SPECIFICATION TraceSpec
 POSTCONDITION TraceAccepted
 """
@@ -329,8 +366,9 @@ def build_grid(inst):
         m[inst["u"]] = False
         mask = aa.Mask2D(mask=m.reshape(inst["h"], inst["w"]), pixel_scales=(inst["sy"] * tau, inst["sx"] * tau),
                          origin=(inst["oy"] * tau, inst["ox"] * tau))
-        grid = aa.Grid2D.from_mask(mask)
-        if inst["api"] in ("reloc",) + STACKS:
+        over = {"over_sampling": aa.OverSamplingUniform(sub_size=inst["sub"])} if inst.get("sub") else {}
+        grid = aa.Grid2D.from_mask(mask, **over)
+        if inst["api"] in ("reloc",) + STACKS or inst.get("exact"):
             # The comparison |p| < r_min must be decided exactly, so the pixel centres have to be ON the lattice, not one
             # rounding error away from it (the library computes them through origin / pixel_scale, which is inexact for
             # scales such as 0.75): where they are not, the same grid is built from the exact centres.
@@ -344,7 +382,7 @@ def build_grid(inst):
                     raise core.MachineryError(f"tiny offset on a pixel that is not at the profile centre: {inst}")
                 ex[k] = (EPS[e - 1] * dy, EPS[e - 1] * dx)
             if not np.array_equal(np.array(grid, dtype=float), ex):
-                grid = aa.Grid2D(values=ex, mask=mask)
+                grid = aa.Grid2D(values=ex, mask=mask, **over)
         return grid
     if gk == "g1d":
         m = np.ones(inst["w"], dtype=bool)
@@ -484,8 +522,26 @@ def _containers(rec, inst, res, call, grid, coords, two_d):
     rec["payload_ok"] = bool(ok)
 
 
-def record_for(inst):
-    """Run the instance through the real decorators and abstract what happened."""
+def _snapshot(grid):
+    return np.array(grid, dtype=float).copy()
+
+
+def _grid_tags(grid, built):
+    """alpha of the caller's grid object after a call: k where position k still holds exactly the coordinate it was built
+    with, OFF otherwise (a changed shape gives one OFF)."""
+    try:
+        cur = np.array(grid, dtype=float)
+    except Exception:  # noqa
+        return [exact.OFF]
+    if cur.shape != built.shape:
+        return [exact.OFF]
+    same = (cur == built) if cur.ndim == 1 else (cur == built).all(axis=-1)
+    return [k if ok else exact.OFF for k, ok in enumerate(same.tolist())]
+
+
+def record_for(inst, shared=None):
+    """Run the instance through the real decorators and abstract what happened.  `shared` = {"grid", "built"}: the call is
+    one of a history of calls on ONE grid object and is judged against the coordinates that object was BUILT with."""
     inst = dict(inst)
     api, gk, rk, lst = inst["api"], inst["gk"], inst["rk"], inst["lst"]
     tau = inst["tau"]
@@ -495,8 +551,10 @@ def record_for(inst):
     cls = _profiles()[inst["prof"]]
     centre = (inst["cy"] * tau, inst["cx"] * tau)
     angle = None if inst["angle"] <= -999 else inst["angle"]
-    grid = build_grid(inst)
-    coords = np.array(grid, dtype=float).reshape(-1, 2) if gk != "g1d" else None
+    grid = shared["grid"] if shared else build_grid(inst)
+    built = shared["built"] if shared else _snapshot(grid)
+    rec["hid"], rec["step"] = (shared["hid"], shared["step"]) if shared else (0, 0)
+    coords = built.reshape(-1, 2).copy() if gk != "g1d" else None
     changes_frame = api in STACKS or (api == "transform" and not inst["flag"])
     if gk == "g1d":
         expected = np.zeros((0, 2))   # the projected points are the code's own: every one gets a fresh tag
@@ -521,6 +579,7 @@ def record_for(inst):
     except Exception as e:  # noqa
         rec["raised"] = True
         rec["exc"] = _exc(e)
+        rec["gafter"] = _grid_tags(grid, built)
         return rec
     rec["calls"] = probe.calls
     rec["rid"] = list(probe.rid)
@@ -570,7 +629,96 @@ def record_for(inst):
             lat[k] = _T(np.array([[float(dy), float(dx)]]), (0.0, 0.0), inst["quarter"] if api in STACKS else 0)[0] * tau
             tiny[k] = True
         rec.update({"R": R, "S": S, "pt": _exact_units(lat, tau), "tiny": tiny, "q": _fix(recv, S / tau)})
+    # ---- the caller's grid object, read again after everything that was done with it
+    rec["gafter"] = _grid_tags(grid, built)
     return rec
+
+
+# ---------------------------------------------------------------------------------------------
+# histories: several decorated calls on ONE grid object
+# ---------------------------------------------------------------------------------------------
+def complete_history(H, seed):
+    """Concrete choices for a history {gk, h, w, u, par=[s, cy, cx, R], calls=[api or dict, ...]}: the grid (exactly on the
+    lattice of unit 1/(4m), near the origin so that bare relocation finds coordinates inside the minimum), the profile (centre
+    near the origin too, quarter turns, angle), the over-sampling the Grid2D carries, and per call the open parameters."""
+    H = dict(H)
+    key = json.dumps({k: H[k] for k in ("gk", "h", "w", "u", "par", "calls")}, sort_keys=True, default=str)
+    rng = np.random.default_rng([seed, len(key), sum(key.encode()) % 65521, int.from_bytes(key.encode()[-6:], "little") % (2 ** 31)])
+    gk, par = H["gk"], H["par"]
+    n = len(H["u"])
+    H.setdefault("m", 1)
+    m = H["m"]
+    if gk == "g1d":
+        H.setdefault("tau", float(TAUS[int(rng.integers(0, len(TAUS)))]))
+        H.setdefault("prof", "VProfile")
+        H.setdefault("sx", 2 * int(rng.integers(1, 4)))
+        H.setdefault("ox", int(rng.integers(-9, 10)))
+    else:
+        H.setdefault("tau", 0.25 / m)
+        H.setdefault("prof", "VProfile" if par[3] == 10 * m else "VProfileSmall")
+    if gk == "g2d":
+        H.setdefault("sy", par[0])
+        H.setdefault("sx", par[0])
+        H.setdefault("oy", -par[1])
+        H.setdefault("ox", -par[2])
+        H.setdefault("sub", int(rng.choice([1, 2, 4])))
+    if gk in ("irr", "nd") and "pts" not in H:
+        R = par[3]
+        seen = set()
+        while len(seen) < n:
+            if rng.random() < 0.3:
+                a, b = PYTH[int(rng.integers(0, len(PYTH)))]
+                seen.add((a * m * int(rng.choice([-1, 1])), b * m * int(rng.choice([-1, 1]))))
+            else:
+                seen.add((int(rng.integers(-R - 3, R + 4)), int(rng.integers(-R - 3, R + 4))))
+        pts = sorted(seen)
+        rng.shuffle(pts)
+        H["pts"] = [[int(a), int(b)] for a, b in pts]
+    H.setdefault("cy", int(rng.integers(-2, 3)))
+    H.setdefault("cx", int(rng.integers(-2, 3)))
+    H.setdefault("quarter", int(rng.integers(0, 4)))
+    H.setdefault("keep", bool(rng.integers(0, 2)))
+    if "angle" not in H:
+        H["angle"] = [-1000.0, 0.0, 30.0, 90.0, float(np.round(rng.uniform(-180, 180), 3))][int(rng.integers(0, 5))]
+    calls = []
+    for c in H["calls"]:
+        c = {"api": c} if isinstance(c, str) else dict(c)
+        api = c["api"]
+        c.setdefault("rk", ("values" if gk != "irr" else ["values", "pairs"][int(rng.integers(0, 2))]) if api == "project"
+                     else ("pairs" if api == "reloc" else ("values" if api == "transform" else _rk_of(api))))
+        c.setdefault("lst", bool(rng.integers(0, 2)) if api in WRAPS else False)
+        c.setdefault("depth", int(rng.integers(1, 4)) if api == "transform" else (1 if api in ("reloc",) + STACKS else 0))
+        c.setdefault("flag", bool(rng.integers(0, 2)) if api == "transform" else False)
+        calls.append(c)
+    H["calls"] = calls
+    return H
+
+
+def history_records(H, hid=1):
+    """Build the grid ONCE, remember the coordinates it was built with, make the calls one after the other on that object."""
+    shared_fields = {k: v for k, v in H.items() if k not in ("calls", "k")}
+    base = dict(shared_fields, api="history", exact=True, tiny=[])
+    grid = build_grid(base)
+    built = _snapshot(grid)
+    if H["gk"] != "g1d":
+        _exact_units(built, H["tau"])     # relocation is decided exactly: the grid must be ON the lattice
+    recs = []
+    for step, c in enumerate(H["calls"], start=1):
+        inst = dict(base, **c)
+        rec = record_for(inst, shared={"grid": grid, "built": built, "hid": hid, "step": step})
+        rec["inst"] = dict(inst, history=H, step=step)
+        recs.append(rec)
+    return recs
+
+
+def _many_h(items):
+    out = []
+    for hid, H in items:
+        try:
+            out.extend(history_records(H, hid))
+        except exact.OffLattice as e:
+            raise core.MachineryError(f"driver produced an off-lattice history {H}: {e}")
+    return out
 
 
 def _many(insts):
@@ -600,12 +748,15 @@ def bounds(quick):
         return {"shapes": all33, "mid_shapes": [s for s in all33 if s not in ((3, 3), (3, 2))], "lens": [1, 2, 3, 4],
                 "geoms": [(2, 0, 0, 3), (4, 1, -2, 3), (8, 0, 0, 10), (8, 3, -4, 10)],
                 "pgeoms": [(2, 0, 0), (4, 1, -2), (2, 3, 3)], "depths": [1, 2, 3], "lattice": 11,
-                "tiny_eps": [1, 2, 3, 4], "tiny_dirs": list(TINY_DIRS), "tiny_shapes": [(1, 1), (1, 3)]}
+                "tiny_eps": [1, 2, 3, 4], "tiny_dirs": list(TINY_DIRS), "tiny_shapes": [(1, 1), (1, 3)],
+                "hist_shapes": [(1, 2), (2, 2), (1, 3)], "hist_lens": [2, 3], "hist_geoms": [(4, 1, -2, 3), (8, 3, -4, 10)], "hist_len": 2}
     return {"shapes": all33 + [(2, 4), (4, 2), (1, 5), (5, 1)], "mid_shapes": all33, "lens": [1, 2, 3, 4, 5, 6],
             "geoms": [(2, 0, 0, 3), (2, 1, 1, 3), (4, 1, -2, 3), (4, 0, 0, 10), (8, 0, 0, 10), (8, 3, -4, 10), (6, 1, 2, 10), (10, 5, 0, 10)],
             "pgeoms": [(2, 0, 0), (4, 1, -2), (2, 3, 3), (6, -5, 2), (8, 0, 7)], "depths": [1, 2, 3, 4], "lattice": 14,
             "tiny_eps": list(range(1, len(EPS) + 1)), "tiny_dirs": list(TINY_DIRS) + [(-3, -4), (0, 2), (5, 12)],
-            "tiny_shapes": [(1, 1), (1, 3), (3, 1)]}
+            "tiny_shapes": [(1, 1), (1, 3), (3, 1)],
+            "hist_shapes": [(1, 2), (2, 2), (1, 3), (3, 1)], "hist_lens": [2, 3, 4],
+            "hist_geoms": [(4, 1, -2, 3), (8, 3, -4, 10), (6, 1, 2, 10)], "hist_len": 3}
 
 
 def expected_count(b):
@@ -633,6 +784,7 @@ def enumerate_instances(ctx, b):
         f"MCTinyEps == {_tla_set(str(e) for e in b['tiny_eps'])}",
         f"MCTinyDirs == {_tla_set(_tup(d) for d in b['tiny_dirs'])}",
         f"MCTinyShapes == {_tla_set(_tup(s) for s in b['tiny_shapes'])}",
+        "MCNone == {}",
     ])
     res = ctx.tlc("Decorators", MC_CFG, defs=defs, tag="MC_Decorators", timeout=3000, coverage=True)
     insts = res.by_kind("inst")
@@ -642,6 +794,72 @@ def enumerate_instances(ctx, b):
     for r in insts:
         r.pop("k", None)
     return insts
+
+
+H_APIS = {"g1d": ("to_array", "to_grid", "project"),
+          "g2d": ("reloc", "stack_array", "to_array", "to_grid", "to_vector_yx", "project"),
+          "irr": ("reloc", "stack_array", "to_array", "to_grid", "to_vector_yx", "project")}
+H_FIRST = {"g1d": H_APIS["g1d"], "g2d": ("reloc", "stack_array"), "irr": ("reloc", "stack_array")}
+
+
+def expected_histories(b):
+    nm = lambda shapes: sum(2 ** (h * w) - 1 for h, w in shapes)
+    L = b["hist_len"]
+    rs = {g[3] for g in b["hist_geoms"]}
+    per = lambda gk: len(H_FIRST[gk]) * len(H_APIS[gk]) ** (L - 1)
+    states = lambda gk: 1 + sum(len(H_FIRST[gk]) * len(H_APIS[gk]) ** (l - 1) for l in range(1, L + 1))
+    n2, ni, n1 = len(b["hist_geoms"]) * nm(b["hist_shapes"]), len(b["hist_lens"]) * len(rs), sum(2 ** n - 1 for n in b["hist_lens"])
+    return n2 * per("g2d") + ni * per("irr") + n1 * per("g1d"), n2 * states("g2d") + ni * states("irr") + n1 * states("g1d")
+
+
+def enumerate_histories(ctx, b):
+    """Exhaustive exploration of the history machine (SpecH): every sequence of hist_len decorated calls on one grid."""
+    defs = "\n".join([
+        f"MCHistShapes == {_tla_set(_tup(s) for s in b['hist_shapes'])}",
+        f"MCHistLens == {_tla_set(str(n) for n in b['hist_lens'])}",
+        f"MCHistGeoms == {_tla_set(_tup(g) for g in b['hist_geoms'])}",
+        f"MCHistLen == {b['hist_len']}",
+        "MCNone == {}",
+    ])
+    res = ctx.tlc("Decorators", MC_H_CFG, defs=defs, tag="MC_DecoratorsH", timeout=3000, coverage=True, workers=4)
+    hs = res.by_kind("hist")
+    want, states = expected_histories(b)
+    if len(hs) != want or res.distinct != states:
+        raise core.MachineryError(f"Decorators.tla (SpecH) enumerated {len(hs)} histories / {res.distinct} states, expected {want} / {states}")
+    for r in hs:
+        r.pop("k", None)
+    return hs
+
+
+def random_histories(rng, count, max_side=6):
+    """Longer histories on larger grids: 2..5 calls on one object, a relocating call first where the grid kind has one, then
+    anything (also transform, stack_grid, list results), finer lattices, ndarray inputs."""
+    out = []
+    for k in range(count):
+        gk = ["g2d", "irr", "g1d", "g2d", "irr", "nd"][k % 6]
+        L = int(rng.integers(2, 6))
+        m = int(rng.choice([1, 2, 4]))
+        big = bool(rng.integers(0, 2))
+        R = (10 if big else 3) * m
+        if gk == "g1d":
+            w = int(rng.integers(2, 11))
+            u = sorted(int(x) for x in rng.choice(w, size=int(rng.integers(1, w + 1)), replace=False))
+            H = {"gk": gk, "h": 1, "w": w, "u": u, "par": [0, 0, 0, 0], "calls": [str(rng.choice(H_APIS["g1d"])) for _ in range(L)]}
+        else:
+            later = {"g2d": H_APIS["g2d"] + ("stack_grid", "transform"), "irr": H_APIS["irr"] + ("stack_grid", "transform"),
+                     "nd": ("reloc", "transform")}[gk]
+            first = ("reloc",) if gk == "nd" else ("reloc", "stack_array", "stack_grid")
+            calls = [str(rng.choice(first))] + [str(rng.choice(later)) for _ in range(L - 1)]
+            if gk == "g2d":
+                h, w, u = _rand_mask(rng, max_side)
+                s = 2 * int(rng.integers(1, 1 + (6 if big else 2) * m))
+                H = {"gk": gk, "h": h, "w": w, "u": u, "par": [s, int(rng.integers(-s, s + 1)), int(rng.integers(-s, s + 1)), R], "calls": calls}
+            else:
+                n = int(rng.integers(2, 13))
+                H = {"gk": gk, "h": 1, "w": n, "u": list(range(n)), "par": [0, 0, 0, R], "calls": calls}
+            H["m"] = m
+        out.append(H)
+    return out
 
 
 def _rand_mask(rng, max_side):
@@ -771,6 +989,10 @@ def _describe(rec):
         s += f" kinds={rec.get('kinds')} rid={rec.get('rid')} out={rec.get('out')}"
     if rec.get("raised"):
         s += f" RAISED {rec.get('exc')}"
+    if rec.get("gafter") is not None and rec["gafter"] != list(range(len(rec["u"]))):
+        s += f"; caller's grid after the call (k = still the built coordinate k, -2 = overwritten): {rec['gafter']}"
+    if rec.get("step"):
+        s += f"; call {rec['step']} of history {[c['api'] for c in i.get('history', {}).get('calls', [])]} on ONE grid object"
     for k in ("bad", "bad_container"):
         if rec.get(k):
             s += f" [{k}: {rec[k]}]"
@@ -825,6 +1047,11 @@ def run(ctx):
                   "coordinates_a_hair_from_centre": {"eps": [EPS[e - 1] for e in b["tiny_eps"]], "directions": [list(d) for d in b["tiny_dirs"]],
                                                      "as": "one-point ndarray / Grid2DIrregular; central pixel of every mask of " + str(b["tiny_shapes"])
                                                            + " through reloc, stack_array, stack_grid"},
+                  "histories_on_one_grid_object": {"2d_frames": b["hist_shapes"], "1d_and_irregular_lengths": b["hist_lens"],
+                                                   "geometries": b["hist_geoms"], "calls_per_history": b["hist_len"],
+                                                   "first_call": {k: list(v) for k, v in H_FIRST.items()}, "calls": {k: list(v) for k, v in H_APIS.items()},
+                                                   "grid2d_over_sampling_sub_sizes": [1, 2, 4]},
+                  "random_histories": 40 if quick else 600,
                   "random_instances": nrand, "random_max_side": 7 if quick else 9}
     insts = enumerate_instances(ctx, b)
     ctx.exhaustive = True
@@ -835,15 +1062,29 @@ def run(ctx):
     recs = []
     for part in core.pmap(_many, groups):
         recs.extend(part)
-    ctx.replayed = len(insts)
+    # ---- histories: several decorated calls on ONE grid object
+    hists = enumerate_histories(ctx, b)
+    rnd_h = random_histories(rng, ctx.bounds["random_histories"])
+    allh = [complete_history(H, ctx.seed) for H in hists] + [complete_history(H, ctx.seed + 1) for H in rnd_h]
+    items = list(enumerate(allh, start=1))
+    hrecs = []
+    for part in core.pmap(_many_h, [items[k: k + 25] for k in range(0, len(items), 25)]):
+        hrecs.extend(part)
+    hs = next((r for r in hrecs if r["step"] == 2 and r["gk"] == "g2d" and len(r["u"]) > 2 and not r["raised"]), None)
+    recs.extend(hrecs)
+    ctx.replayed = len(insts) + len(hists)
     for api, gk in (("to_grid", "g2d"), ("stack_array", "g2d"), ("project", "g2d"), ("reloc", "irr")):
         s = next((r for r in recs if r["api"] == api and r["gk"] == gk and len(r["u"]) > 2 and not r["raised"]), None)
         if s is not None:
             ctx.sample({k: v for k, v in s.items() if k != "inst"})
+    if hs is not None:
+        ctx.sample({k: v for k, v in hs.items() if k != "inst"} | {"history_calls": [c["api"] for c in hs["inst"]["history"]["calls"]]})
     rej = validate(ctx, recs, "C17")
     kinds = {}
     for r in recs:
         kinds[f"{r['api']}/{r['gk']}"] = kinds.get(f"{r['api']}/{r['gk']}", 0) + 1
+    ctx.note(f"{len(hists)} enumerated histories of {b['hist_len']} calls + {len(rnd_h)} random histories of 2..5 calls on one grid object "
+             f"-> {len(hrecs)} call records, each judged against the coordinates the grid was built with")
     ctx.note(f"{len(insts)} enumerated instances + {len(rnd)} random instances -> {len(recs)} records validated by Trace_Decorators; "
              f"records by call {kinds}; {len(rej)} rejected")
     ctx.assumptions = [
@@ -855,12 +1096,21 @@ def run(ctx):
         "the container class of to_grid on a 1D grid and the mask of 1D results are not pinned by the statement and not checked",
         "project_grid on a 2D grid: the number of points of the ray and its direction are free; the first point is the centre or one "
         "pixel scale away from it (remove_projected_centre)",
+        "histories: one grid object (Grid2D with over-sampling sub size 1/2/4, Grid2DIrregular, Grid1D, ndarray) receives several decorated "
+        "calls; expected coordinates of every call are the ones the object was built with, and the object is read again after every call",
         "the profile classes supply radial_grid_from (Euclidean radius) and the change of frame (shift + quarter turns), as profiles do downstream",
     ]
 
 
 def replay(ctx, rp):
     inst = rp["record"]["inst"]
+    if "history" in inst:
+        recs = history_records(inst["history"])
+        rej = validate(ctx, recs, "C17-replay")
+        for r in recs:
+            print(f"history call {r['step']}:", _describe(r))
+        print("rejected:", [(recs[r["id"]]["step"], r["clauses"], r["sig"]) for r in rej])
+        return ctx.finish()
     rec = record_for(inst)
     rej = validate(ctx, [rec], "C17-replay")
     print("replayed 1 record:", _describe(rec))
